@@ -42,9 +42,11 @@ class Gen:
 
     # ------------------------------------------------------------ strings
     def nonce(self):
+        """'9' followed by four digits 0-8: in any concatenation of nonces a
+        5-character window that looks like a nonce is aligned on a real one."""
         while True:
-            n = str(self.rng.randint(10000, 99999))
-            if all(n not in u and u not in n for u in self.nonces):
+            n = "9" + "".join(str(self.rng.randint(0, 8)) for _ in range(4))
+            if n not in self.nonces:
                 self.nonces.append(n)
                 return n
 
